@@ -33,7 +33,7 @@ STAT_KEYS = ('owner_checked', 'exceptions_observed', 'injected', 'due_checked', 
              'c06_samples', 'c06_cancels_judged', 'c06_cancel_before_start',
              'c06_cancel_running', 'c06_awaits', 'cleanup_spawns', 'graceful_cleanups', 'failed_while_closed',
              'c06_cancel_seen_cleanup_pending', 'c06_pending_awaits_checked',
-             'watchers:task', 'watchers:notif', 'watchers_refused', 'c06_failures_followed', 'c06_results_followed', 'c20_ops_checked', 'prepared_early', 'self_cancels', 'nested_runs', 'cancelled_at_once', 'cleanup_cancels', 'manual_blocks', 'phases')
+             'watchers:task', 'watchers:notif', 'watchers_refused', 'c06_failures_followed', 'c06_results_followed', 'c20_ops_checked', 'prepared_early', 'self_cancels', 'nested_runs', 'cancelled_at_once', 'cleanup_cancels', 'manual_blocks', 'phases', 'c06_repeated_cancels_judged')
 
 
 def explore(case, program, rng, relevant, nontrivial, quick_injections=6,
